@@ -2391,3 +2391,137 @@ func ruleStaleTop(c *Ctx, r *Rep) {
 		r.OK("census", token.NoPos, "no local copy of the top of a value-typed stack in packages cli and gojq")
 	}
 }
+
+// ---------------------------------------------------------------------------------------------------------------------
+
+func init() {
+	reg(&Rule{ID: "R-C17-charindex", Props: []string{"C17"}, Floor: 1,
+		Doc: "a position that a third-party parser counts in characters (its mark index advances by one where its buffer position advances by the character's width) is converted to a byte offset before it is used with the byte-offset line/caret computation",
+		Run: ruleCharIndex})
+}
+
+func ruleCharIndex(c *Ctx, r *Rep) {
+	// 1. premise, from the dependency's source: a function that increments a field named index by one and, in the same
+	//    body, advances a buffer position by a width(...) call
+	var deps []*packages.Package
+	packages.Visit(c.All, nil, func(p *packages.Package) { deps = append(deps, p) })
+	sort.Slice(deps, func(i, j int) bool { return deps[i].PkgPath < deps[j].PkgPath })
+	charCounting := map[string]token.Pos{}
+	for _, p := range deps {
+		if p.PkgPath == pathGojq || p.PkgPath == pathCli || p.PkgPath == pathCmd || !strings.Contains(p.PkgPath, ".") || p.TypesInfo == nil {
+			continue
+		}
+		for _, f := range p.Syntax {
+			for _, d := range f.Decls {
+				fd, ok := d.(*ast.FuncDecl)
+				if !ok || fd.Body == nil {
+					continue
+				}
+				incIndex, widthAdvance := token.NoPos, false
+				ast.Inspect(fd.Body, func(q ast.Node) bool {
+					switch x := q.(type) {
+					case *ast.IncDecStmt:
+						if sel, ok := unparen(x.X).(*ast.SelectorExpr); ok && sel.Sel.Name == "index" && x.Tok == token.INC {
+							incIndex = x.Pos()
+						}
+					case *ast.AssignStmt:
+						if x.Tok == token.ADD_ASSIGN && len(x.Rhs) == 1 {
+							if call, ok := unparen(x.Rhs[0]).(*ast.CallExpr); ok {
+								if id, ok := call.Fun.(*ast.Ident); ok && id.Name == "width" {
+									widthAdvance = true
+								}
+							}
+						}
+					}
+					return true
+				})
+				if incIndex != token.NoPos && widthAdvance {
+					if _, ok := charCounting[p.PkgPath]; !ok {
+						charCounting[p.PkgPath] = incIndex
+					}
+				}
+			}
+		}
+	}
+	if len(charCounting) == 0 {
+		r.OK("census", token.NoPos, "no dependency counts positions in characters")
+		return
+	}
+	// 2. in package cli: a value read from a field named Index of a type of such a package must not reach the offset
+	//    parameter of getLineByOffset by arithmetic alone
+	p := c.Cli
+	info := p.TypesInfo
+	n := 0
+	for _, fd := range c.Decls(p) {
+		if fd.Body == nil {
+			continue
+		}
+		// locals assigned from X.Index of a char-counting package's type
+		tainted := map[types.Object]token.Pos{}
+		var src string
+		ast.Inspect(fd.Body, func(q ast.Node) bool {
+			as, ok := q.(*ast.AssignStmt)
+			if !ok || len(as.Lhs) != len(as.Rhs) {
+				return true
+			}
+			for i, rhs := range as.Rhs {
+				sel, ok := unparen(rhs).(*ast.SelectorExpr)
+				if !ok || sel.Sel.Name != "Index" {
+					continue
+				}
+				nt := namedOf(derefType(info.TypeOf(sel.X)))
+				if nt == nil || nt.Obj().Pkg() == nil {
+					continue
+				}
+				if _, ok := charCounting[nt.Obj().Pkg().Path()]; !ok {
+					continue
+				}
+				src = nt.Obj().Pkg().Path()
+				if id, ok := as.Lhs[i].(*ast.Ident); ok {
+					if o := info.ObjectOf(id); o != nil {
+						tainted[o] = as.Pos()
+					}
+				}
+			}
+			return true
+		})
+		if len(tainted) == 0 {
+			continue
+		}
+		ast.Inspect(fd.Body, func(q ast.Node) bool {
+			call, ok := q.(*ast.CallExpr)
+			if !ok || !strings.HasSuffix(calleeName(info, call), ".getLineByOffset") || len(call.Args) < 2 {
+				return true
+			}
+			n++
+			// the offset argument: tainted identifiers reached only through arithmetic (no call in between) are unconverted
+			raw := false
+			var visit func(e ast.Expr)
+			visit = func(e ast.Expr) {
+				switch x := unparen(e).(type) {
+				case *ast.Ident:
+					if _, ok := tainted[info.Uses[x]]; ok {
+						raw = true
+					}
+				case *ast.BinaryExpr:
+					visit(x.X)
+					visit(x.Y)
+				case *ast.CallExpr:
+					// a conversion function: whatever it does, the value is no longer used raw
+					if tv, ok := info.Types[x.Fun]; ok && tv.IsType() {
+						for _, a := range x.Args {
+							visit(a) // a type conversion is still arithmetic
+						}
+					}
+				}
+			}
+			visit(call.Args[1])
+			r.Check(!raw, "index:"+declKey(fd), call.Pos(), "%s passes an Index of %s to getLineByOffset as a byte offset: converted from characters to bytes first: %v (%s counts one per character at %s while its buffer advances by the character's width; `printf 'a: \"日本語\"\\nb: ]' | gojq --yaml-input .` reports the error on line 1)",
+				declKey(fd), src, !raw, src, c.Pos(charCounting[src]))
+			return true
+		})
+	}
+	if n == 0 {
+		r.OK("census", token.NoPos, "%d dependencies count positions in characters; package cli does not use their Index with getLineByOffset", len(charCounting))
+	}
+}
